@@ -1,8 +1,69 @@
-(* C03 — pins (theorems in Proofs/C03Main.v to follow). *)
-From Coq Require Import String Ascii ZArith QArith List Bool.
-From RV Require Import Base.Val Gen.Annot Model.Annot.
+(* C03 — reported base pairs are geometrically justified, edge-exclusive and maximal: pins and theorems about
+   Model.Annot.find_pairs, which the correspondence check ties to annotator.find_pairs.  Only `exact`. *)
+From Coq Require Import String Ascii ZArith QArith Qreals Reals List Bool Permutation.
+From RV Require Import Base.Val Gen.Annot Model.Geom Model.Annot Proofs.BandsR Proofs.TriSem Proofs.C03Occupy Proofs.C03Hbonds Proofs.C03Main.
 Import ListNotations.
+Local Close Scope Q_scope.
 
-Lemma C03_pin_thresholds : hbond_max_distance == 4 /\ hbond_angle_lo == 50 /\ hbond_angle_hi == 130 /\ min_hbonds = 2%nat /\ annotator_as_modelled = true /\ hbond_dedup = true.
+Lemma C03_pin_thresholds : (hbond_max_distance == 4 /\ hbond_angle_lo == 50 /\ hbond_angle_hi == 130)%Q /\ min_hbonds = 2%nat /\ annotator_as_modelled = true /\ hbond_dedup = true.
 Proof. repeat split; reflexivity. Qed.
 Print Assumptions C03_pin_thresholds.
+
+(* every contact the scan records is justified (donor/acceptor, two residues, both windows Yes) and recorded once *)
+Theorem C03_contacts : forall rs order,
+    (forall h, In h (hbonds (scan rs order)) -> justified rs (candidates rs) order h) /\
+    (hbond_dedup = true -> distinct_contacts (hbonds (scan rs order))).
+Proof. exact scan_spec. Qed.
+Print Assumptions C03_contacts.
+
+(* ... and is within 4 A when the neighbour pairs come from the validated neighbour set *)
+Theorem C03_contacts_within : forall rs order h, (forall ij, In ij order -> In ij (hbond_neighbours rs)) ->
+    justified rs (candidates rs) order h ->
+    exists ci cj, h = mk_hbond ci cj /\ In ci (candidates rs) /\ In cj (candidates rs) /\ within2 hbond_max_distance (c_pos ci) (c_pos cj) = true.
+Proof. exact justified_within. Qed.
+Print Assumptions C03_contacts_within.
+
+(* the window decision in degrees (real numbers): Yes means strictly between 50 and 130 degrees off the normal *)
+Theorem C03_window_decision : forall n v,
+    match in_window n v with
+    | Yes => ~ degenerate n v /\ (cosang2 n v < c2 (Q2R hbond_angle_lo))%R
+    | Near => ~ degenerate n v /\ (c2 (Q2R hbond_angle_lo + eps) < cosang2 n v < c2 (Q2R hbond_angle_lo - eps))%R
+    | No => degenerate n v \/ (c2 (Q2R hbond_angle_lo) < cosang2 n v)%R
+    end.
+Proof. exact window_meaning. Qed.
+Print Assumptions C03_window_decision.
+
+(* a label of a contact: its two residues, one edge of each atom, the cis/trans decision *)
+Theorem C03_labels : forall rs h l, In l (hlabels rs h) ->
+    exists ri rj ei ej d a b,
+      nth_error rs (h_i h) = Some ri /\ nth_error rs (h_j h) = Some rj /\
+      edges_of ri (h_ni h) = Some ei /\ edges_of rj (h_nj h) = Some ej /\ detect_cis_trans ri rj = Some d /\
+      In a ei /\ In b ej /\
+      l = (if res_ltb ri rj then (h_i h, h_j h, match d with No => false | _ => true end, a, b)
+           else (h_j h, h_i h, match d with No => false | _ => true end, b, a)).
+Proof. exact hlabels_meaning. Qed.
+Print Assumptions C03_labels.
+
+(* the chosen pairs: two residues, two different justified contacts on the named edges; no edge twice; maximal *)
+Theorem C03_chosen : forall rs order,
+    (forall l, In l (chosen rs order) ->
+       ends_differ l /\
+       exists h1 h2, In h1 (hbonds (scan rs order)) /\ In h2 (hbonds (scan rs order)) /\
+                     (hbond_dedup = true -> same_hbond h1 h2 = false) /\
+                     In l (hlabels rs h1) /\ In l (hlabels rs h2) /\
+                     justified rs (candidates rs) order h1 /\ justified rs (candidates rs) order h2) /\
+    NoDup (flat_map slots (chosen rs order)) /\
+    (forall l, min_hbonds <= count_label l (labs rs order) ->
+       In l (chosen rs order) \/ exists l' s, In l' (chosen rs order) /\ In s (slots l) /\ In s (slots l')).
+Proof. exact chosen_pairs_spec. Qed.
+Print Assumptions C03_chosen.
+
+(* what find_pairs reports is exactly the chosen labels *)
+Theorem C03_reported_is_chosen : forall rs order p, 2 <= length (candidates rs) ->
+    (In p (po_pairs (find_pairs rs order)) <-> exists l, In l (chosen rs order) /\ p = pair_of rs l).
+Proof. exact reported_is_chosen. Qed.
+Print Assumptions C03_reported_is_chosen.
+
+Theorem C03_reported_small : forall rs order, length (candidates rs) < 2 -> po_pairs (find_pairs rs order) = [].
+Proof. exact find_pairs_small. Qed.
+Print Assumptions C03_reported_small.
